@@ -65,8 +65,7 @@ def line_events(it, o, n0, sentence_names):
 
 
 def run(chk):
-    w = facts.world("W")
-    chk.configs.add("W")
+    w = C.world_for(chk)
     for rid, txt in (("R20.1", "per-line output event sequences; sibling loops agree"), ("R20.2", "tag candidates only after fill_tags on the same sentence"),
                      ("R20.3", "pipeline order and flag wiring"), ("R20.4", "evaluate counter tables and metric formulas"), ("R20.5", "error discipline in the tools")):
         chk.rule(rid, txt)
